@@ -54,6 +54,8 @@ def gen_braid(repo):
         "bfs_inserts_count_ge_2": "if count >= 2 {" in nc,
         "bfs_cutoff_is_le_lca": "if loc.max_cut <= self.lca.max_cut { continue; }" in nc,
         "consume_decrements_above_one": ".count > 1 {" in nc,
+        "disk_block_searched_before_install": "let block = self.read_block_from_disk(ri)?; if let Some(ei) = block.find(location) { let bi = self.install_block(ri, block)?; return self.consume_entry(bi, ei); } } ri = ri.checked_add(1)" in nc,
+        "lru_is_first_strictly_lowest": "if self.storage.blocks[i].last_accessed < self.storage.blocks[lru].last_accessed { lru = i; }" in nc,
     }
     for k, v in shapes.items():
         if not v:
